@@ -57,7 +57,7 @@ def run(chk):
             kind, ck = "zerorows", "zero_row_preferred"
         else:
             n, m = gen.shape(rng, nmax, mmax)
-            B, kind = gen.matrix(rng, n, m)
+            B, kind = gen.matrix(rng, n, m, "localized" if rng.random() < 0.3 else None)      # pivot columns that are already triangular
             costs, ck = gen.costs(rng, n)
         k = min(n, m)
         Bq = fr_mat(B)
